@@ -120,6 +120,11 @@ def generate(seed, tier):
         L = rw.choice([1, 1, 2, 3, 4, 5, 8, 16, 31, 32, 64, 96, rw.randrange(1, 97)])
         K = rw.choice([1, 2, 2, 3, 3, 4, 5, 6, 8, 12])
         N = L + rw.choice([0, 0, 1, 5, rw.randrange(0, 200)])
+    giant = big and (not huge_k) and rw.random() < 0.04
+    if giant:       # one or two segments longer than 2**18 samples
+        L = rw.choice([262145, 300001, 400000])
+        K = rw.choice([1, 2])
+        N = L + rw.randrange(0, 1000)
     gpu_long = (not big) and rw.random() < 0.02
     if gpu_long:        # long segments on the simulated GPU (error growth along the segment), few of them
         L = rw.choice([256, 512, 1024])
@@ -133,10 +138,10 @@ def generate(seed, tier):
         N = L + rw.randrange(K // 4, K)
     starts = _gen_starts(rw, N, L, K) if not huge_k else [rw.randrange(0, N - L + 1) for _ in range(K)]
     data = SC.gen_data_spec(rw, N, 2 if mode == "csd" else 1)
-    stress = big and not huge_k and rw.random() < 0.3
+    stress = big and not huge_k and not giant and rw.random() < 0.3
     if stress:
         # precision stress: long segments, a constant offset 1e5 ... 1e8 times the fluctuation, the lowest bins
-        L = rw.choice([512, 1024, 2048])
+        L = rw.choice([512, 1024, 2048, 4096, 8192])
         K = rw.choice([1, 2, 5])
         N = L + rw.randrange(0, 500)
         starts = _gen_starts(rw, N, L, K)
@@ -175,6 +180,12 @@ def generate(seed, tier):
                          for _ in range(rw.randrange(1, 3))]
     if mode == "csd" and rw.random() < 0.3:
         sc["rows_of_recording"] = rw.randrange(1, 2 ** 31)
+    if giant:
+        sc["via"] = "kernel"
+        sc.pop("refills", None)
+        sc["data"]["recipe"] = rw.choice(["noise", "offset+noise", "randwalk"])
+    if rw.random() < 0.2:
+        sc["concurrent_kernel"] = rw.randrange(1, 2 ** 31)     # NumPy world: another caller's kernel call interleaved with this one
     if rw.random() < 0.15:
         sc["alloc_fault"] = rw.choice([1, 1, 2])        # NumPy world: an injected MemoryError in the segment gather of a first call
     # history inside one process: the same (L, omega) first analysed in auto mode, then in cross mode
@@ -299,6 +310,18 @@ def _execute_stage(sc, out, x, y, stage):
                                 f"stage {stage} world={world} (auto call preceding the cross call) L={L} K={K}: got {ra[0]!r}, definition gives {ref_a[0]!r}")
             if sc["via"] == "analyzer":
                 res, ctx = _via_analyzer(sc, ws, x, y, out)
+            elif world == "numpy" and sc.get("concurrent_kernel") and L * K <= 200000:
+                # two independent callers of the NumPy kernels at the same time (simulated threads, line-level pre-emption)
+                g_ = np.random.default_rng(sc["concurrent_kernel"])
+                dx = g_.normal(size=len(x)) * 50.0
+                dy = None if y is None else g_.normal(size=len(x)) * 50.0
+                cctx = W.make_ctx(ws)
+                res, _other = W.run_concurrently(cctx, [
+                    lambda: W.run_kernel(ws, sc["mode"], sc["order"], x, y, starts, L, w, omega)[0],
+                    lambda: W.run_kernel(ws, sc["mode"], sc["order"], dx, dy, starts, L, w, omega)[0]])
+                W.absorb(out, cctx)
+                ctx = None
+                out.count("two_concurrent_callers")
             else:
                 res, ctx = W.run_kernel(ws, sc["mode"], sc["order"], x, y, starts, L, w, omega)
                 W.absorb(out, ctx)
